@@ -69,6 +69,7 @@ class RandomHarness(NativeHarness):
     def __init__(self, rng, oset_name):
         super().__init__({}, oset_name)
         self.rng = rng
+        self.magic = _magic_numbers(oset_name)
 
     def _rec(self, name, v, enc=None):
         self.inputs[name] = enc if enc is not None else v
@@ -78,10 +79,16 @@ class RandomHarness(NativeHarness):
         lo2 = -3 if lo is None else lo
         hi2 = (lo2 + 300) if hi is None else hi
         r = self.rng.random()
-        if r < 0.15:
+        near = [m for m in self.magic if lo2 <= m <= hi2]
+        if r < 0.12:
             v = lo2
-        elif r < 0.3:
+        elif r < 0.24:
             v = hi2
+        elif r < 0.30:
+            v = min(hi2, lo2 + 1) if r < 0.27 else max(lo2, hi2 - 1)
+        elif r < 0.55 and near:
+            # the fuzzer's dictionary: the integer literals of the code under contract and their neighbours
+            v = self.rng.choice(near)
         else:
             v = self.rng.randint(lo2, hi2)
         return self._rec(name, v)
@@ -96,6 +103,12 @@ class RandomHarness(NativeHarness):
         hi2 = 150.0 if hi is None else float(hi)
         k = self.rng.randint(int(lo2 * 20), int(hi2 * 20))
         v = min(max(k / 20.0, lo2), hi2)
+        r = self.rng.random()
+        if r < 0.3 and self.magic:
+            # around the literals of the code under contract (limits, offsets), at the resolutions the codecs use
+            c = self.rng.choice(self.magic) + self.rng.choice([0.0, 0.0, 0.05, -0.05, 0.1, -0.1, 0.5, -0.5, 0.45, -0.45, 0.55, -0.55])
+            if lo2 <= c <= hi2:
+                v = c
         return self._rec(name, v)
 
     def tenths(self, name, lo_k, hi_k):
@@ -245,6 +258,34 @@ def conformance(oset_name, seed, tries):
         if deterministic:
             break
     return {"samples": samples, "compared": compared, "disagreements": dis}
+
+
+_MAGIC = {}
+
+
+def _magic_numbers(oset_name):
+    """Integer literals (and their neighbours) of the modules the functions under contract live in."""
+    if oset_name in _MAGIC:
+        return _MAGIC[oset_name]
+    import ast
+    out = set()
+    try:
+        o = find_oset(oset_name)
+        repo = os.environ.get("PYVC_REPO", "/repo")
+        for fn in o.functions:
+            path = os.path.join(repo, *fn.split(":")[0].split(".")) + ".py"
+            if not os.path.exists(path):
+                path = os.path.join(repo, *fn.split(":")[0].split("."), "__init__.py")
+            if not os.path.exists(path):
+                continue
+            for n in ast.walk(ast.parse(open(path).read())):
+                if isinstance(n, ast.Constant) and isinstance(n.value, (int, float)) and not isinstance(n.value, bool) and abs(n.value) <= 1 << 20:
+                    c = int(n.value)
+                    out.update((c - 1, c, c + 1))
+    except Exception:  # noqa: BLE001
+        pass
+    _MAGIC[oset_name] = sorted(out)
+    return _MAGIC[oset_name]
 
 
 def find_oset(name):
